@@ -51,7 +51,7 @@ C("C14", "proptest model-based: Metro-style function maps written by the harness
   "Entries sorted and distinct by (line, column).")
 C("C15", "exhaustive small texts x request orders + proptest histories against a reference splitter and UTF-16 slicer; iterator-protocol conformance of lines()",
   EXPL + "Any access order, clones of partially indexed views, slices with edge values.",
-  "Columns strictly inside a surrogate pair are crash-freedom only.")
+  "A start column strictly inside a surrogate pair accepts the slice with or without that pair (the end is fixed by c+n).")
 C("C16", "schedule exploration owned by the harness: scenario threads are fibers resumed one at a time at the yield points (deterministic), exhaustive DFS over all interleavings for small scenario shapes, proptest (scenario, schedule) pairs for larger ones, structural deadlock detection, free-running stress on real threads; reference splitter as oracle",
   EXPL + "Needs the add-only cfg(sourcemap_verif) yield hook; executions are a deterministic function of (text, calls, schedule) (self-checked).",
   "Interleavings at the granularity of the yield points (sequentially consistent): what two threads do at the same instant inside a critical section or between two Relaxed atomics is only probed by the stress run. Deadlock = executor thread asleep in the kernel without CPU time or context switches over 2 s; any other lack of progress is inconclusive.")
